@@ -49,7 +49,7 @@ def run(prop, tier, seed, known):
     rng = random.Random(seed)
     from ._tag import Fails
     fails = Fails(prop, (('time shift', ('C08',)), ('joint transposition', ('C09',)), ('swap of reference', ('C06',)), ('duration-weighted mean', ('C12', 'C04')),
-                         ('is cut at', ('C12',)), ('raised', ('C14', 'C12')), ('perfect', ('C02',))))
+                         ('is cut at', ('C12',)), ('raised', ('C14', 'C12', 'C13')), ('perfect', ('C02',))))
     n = 0
     t0 = time.time()
     cache = {}
@@ -66,7 +66,9 @@ def run(prop, tier, seed, known):
         for rule in RULES:
             num = den = 0.0
             for t in cells:
-                c = cmp(rule, label_at(ri, rl, t + 0.0625), label_at(ei, el, t + 0.0625))
+                ref_l = label_at(ri, rl, t + 0.0625)
+                # time where the reference is 'X' is outside every rule's vocabulary by definition (not asked of the library)
+                c = -1.0 if ref_l == 'X' else cmp(rule, ref_l, label_at(ei, el, t + 0.0625))
                 if c >= 0:
                     num += 0.125 * c
                     den += 0.125
@@ -141,6 +143,22 @@ def run(prop, tier, seed, known):
                 if bad:
                     fails.append('chord.evaluate[%r] changes from %r to %r when the %s interval [%s, %s] (%s) is cut at %s (ref %s %s, est %s %s)'
                                  % (bad[0], float(got[bad[0]]), float(g2[bad[0]]), side, what[0], what[1], what[3], what[2], ri, rl, ei, el))
+            # an estimate whose span differs from the reference's by less than any comparison tolerance is still adjusted to the reference span
+            for dev_ in (5e-9, 1e-7, -1e-7, 0.0005):
+                ei2_ = [list(iv_) for iv_ in ei]
+                ei2_[-1][1] = r1 + dev_
+                if ei2_[-1][1] <= ei2_[-1][0]:
+                    continue
+                n += 1
+                try:
+                    g3_ = chord.evaluate(np.array(ri), rl, np.array(ei2_), el)
+                    w3_ = chord.evaluate(np.array(ri), rl, np.array([list(iv_) for iv_ in ei[:-1]] + [[ei[-1][0], r1]]), el)
+                    bad3_ = [k_ for k_ in g3_ if abs(float(g3_[k_]) - float(w3_[k_])) > 1e-3]
+                    if bad3_:
+                        fails.append('chord.evaluate[%r] = %r when the estimate ends %s s after the reference, %r when it ends with it: not a duration-weighted mean over the reference span'
+                                     % (bad3_[0], float(g3_[bad3_[0]]), dev_, float(w3_[bad3_[0]])))
+                except Exception as ex:
+                    fails.append('chord.evaluate raised %s on a valid input: the estimate ends %s s after the reference (ref %s, est %s)' % (type(ex).__name__, dev_, ri, ei2_))
             # C02: an annotation against an exact copy of itself scores 1 under every rule that has something to compare (0 by convention when the
             # rule's vocabulary excludes every reference chord), also when the annotation has internal gaps between different chords
             for gi, gl in ((ri, rl), ([iv_ for k_, iv_ in enumerate(ri) if k_ != 1], [l_ for k_, l_ in enumerate(rl) if k_ != 1]) if len(ri) >= 3 else (ri, rl)):
